@@ -53,6 +53,7 @@ def run_wrapper(rng, obs, focus='c01'):
     seen = set()
     probe.hooks.append(lambda seq, x: seen.add(tuple(x)))
     x0 = [round(rng.uniform(-3, 3), 2) for _ in range(dim)]
+    if rng.random() < 0.15: x0 = [round(v * rng.choice([10.0, 40.0]), 1) for v in x0]      # far from the origin: relative steps exceed any rounding a constraint performs
     kw = {'disp': 0, 'full_output': 1, 'retall': 1}
     box = None
     if rng.random() < (0.5 if focus != 'c02' else 1.0):
